@@ -28,11 +28,14 @@ def run(rep, tier, seed, tr_errors):
                 "reported by suggest_num_RC; at 0.02 % noise the drift-corrupted counterpart (<ID>_INVALID) has >= 5 x (>= 3 x at 0.05 %) the pseudo chi-squared; "
                 "the estimate equals _estimate_pct_noise of the reported chi-squared; non-trivial = completed run; distinct by (circuit, noise, seed)")
     rep.trusted += ["Coq 8.16.1 kernel; real-number axioms of the standard library (Print Assumptions)", "tools/tr_kk.py, tools/tr_formulas.py",
+                    "tools/tr_suggest.py: the selection skeleton of _suggest_using_default (which test is returned, which limits are reported); scores, sort keys and the replacement condition are parameters; sorted() is assumed to return the elements of its argument",
                     "the statistical clauses are sampled on fixed seeds against a frozen band (calibrated once on the unchanged tree: ratios 0.87 .. 1.36, drift factors 97 .. 243); no theorem covers them",
                     "numpy's RandomState.normal(0, sd) = sd x standard normal draw (modelling assumption of the noise theorem)"]
-    for tr in ("tr_kk", "tr_formulas"):
+    for tr in ("tr_kk", "tr_formulas", "tr_suggest"):
         rep.oblige("translator:" + tr, tr not in tr_errors, tr_errors.get(tr, "regenerated")[-300:])
     thm_ok, names, out = lib.check_props_file(rep, PROPS_FILE, expect=EXPECT)
+    thm_ok2, _, _ = lib.check_props_file(rep, "Props/C10_Limits.v", expect=["C10_suggestion_inside_reported_limits", "C10_suggestion_example"])
+    thm_ok = thm_ok and thm_ok2
     bad = []
     idents = ["CIRCUIT_1", "CIRCUIT_2", "CIRCUIT_5", "CIRCUIT_8", "CIRCUIT_9"] if tier == "quick" else ["CIRCUIT_%d" % i for i in (1, 2, 3, 4, 5, 6, 7, 8, 9, 10, 11, 12)]
     plan = []
